@@ -636,6 +636,14 @@ def align_wcs(wcscat, refcat=None, ref_tpwcs=None, enforce_user_order=True,
     for group_id, wcatalogs in grouped_images.items():
         if group_id is None:
             for wcat in wcatalogs:
+                if not len(wcat.catalog):
+                    log.warning("Image '{}' will not be aligned: empty "
+                                "source catalog".format(wcat.name))
+                    wcat.corrector.meta['fit_info'] = {
+                        'status': 'FAILED: empty source catalog'
+                    }
+                    continue
+
                 wcs_gcat.append(
                     WCSGroupCatalog(
                         wcat,
